@@ -71,6 +71,37 @@ def run_bounded(prop, repo, tier, seed):
     return rec
 
 
+LEAN_LEMMAS = {"C05": [("lean/HistoryIndependence.lean", ["C05.history_independent", "C05.last_result_independent"],
+                        "induction over the history: per-operation contracts (Inv preserved, result = fresh-file "
+                        "result) imply that every result after any finite history is the fresh-file result")]}
+
+
+def run_lean_lemmas(prop):
+    """lemmas that need induction over an unbounded history are stated and proved in Lean 4 (kernel-checked on every
+    run); each theorem counts as one proof-level obligation discharged by the back end 'lean4'"""
+    out = []
+    for (rel, theorems, note) in LEAN_LEMMAS.get(prop, []):
+        t0 = time.time()
+        rec = {"harness": "lean:" + os.path.basename(rel), "functions": [], "props": [prop], "level": "proof",
+               "bound": "", "variants": [], "obligations": [], "undecided": [], "refuted": [], "known": [], "paths": 0,
+               "note": note, "duplicates_merged": 0, "trusted": ["Lean 4 kernel and core library (axiom: propext)"]}
+        try:
+            p = subprocess.run(["lean", os.path.join(HERE, rel)], capture_output=True, text=True, timeout=600, cwd=HERE)
+            text = p.stdout + p.stderr
+            ok = p.returncode == 0 and "error" not in text.lower() and "sorry" not in text.lower()
+        except Exception as e:
+            ok, text = False, repr(e)
+        for th in theorems:
+            good = ok and ("'%s' depends on axioms" % th in text or "'%s' does not depend on any axioms" % th in text)
+            rec["obligations"].append({"name": "lean/" + th, "kind": "lemma", "status": "proved" if good else "unknown",
+                                       "backend": "lean4", "time": round(time.time() - t0, 3), "variant": ""})
+            if not good:
+                rec["undecided"].append({"reason": "lean-check-failed", "detail": text[-400:], "variant": ""})
+        rec["wall_s"] = round(time.time() - t0, 3)
+        out.append(rec)
+    return out
+
+
 RTC_PROPS = {"C01", "C02", "C04", "C06", "C07", "C09", "C12", "C13", "C14", "C16", "C17", "C20"}
 
 
@@ -143,6 +174,7 @@ def run_property(prop, repo, tier, seed, jobs, only=None, t0=None):
                 recs = list(ex.map(_run, work))
         else:
             recs = [_run(w) for w in work]
+    recs.extend(run_lean_lemmas(prop))
     bounded = run_bounded(prop, repo, tier, seed)
     rtc = run_rtc(prop, repo, tier)
     if rtc is not None and bounded is not None and not rtc.get("error"):
